@@ -22,7 +22,7 @@ IdPoolNone == {NoId}
 DefValsGraph == {0, 5, 10}
 StepPoolG == {"s", "d", "zz"}
 SliceOps(n) == CASE n = "C09" -> {"Generate", "Sibling", "Regenerate", "AddNode", "Link", "RemoveNode", "AttachAttackers", "RemoveGAttacker", "Undo", "Prune", "Analyse"}
-              [] n = "C11" -> {"Generate", "Sibling", "AttachAttackers", "AddGAttacker", "RemoveGAttacker", "Compromise", "Undo", "RemoveNode"}
+              [] n = "C11" -> {"Generate", "Sibling", "DeepCopy", "AttachAttackers", "AddGAttacker", "RemoveGAttacker", "Compromise", "Undo", "RemoveNode"}
               [] n = "C13" -> {"Generate", "AddNode", "Link", "Analyse", "Prune", "AttachAttackers", "Touch"}
               [] n = "C14" -> {"Generate", "Sibling", "AttachAttackers", "Analyse", "DeepCopy", "RemoveNode", "Compromise", "Touch", "AddNode", "RemoveGAttacker"}
               [] n = "C10" -> {"Generate", "Sibling", "AttachAttackers", "Analyse", "Prune", "Compromise", "Undo", "RemoveNode", "Touch", "SaveLoad"}
@@ -34,6 +34,7 @@ SliceOps(n) == CASE n = "C09" -> {"Generate", "Sibling", "Regenerate", "AddNode"
               [] n = "ALL" -> {"Generate", "Sibling", "Regenerate", "AddNode", "Link", "RemoveNode", "Prune", "Analyse", "AttachAttackers", "AddGAttacker", "RemoveGAttacker", "Compromise", "Undo", "DeepCopy", "SaveLoad", "Touch"}
               [] OTHER -> {"Generate"}
 TouchKindsDef == IF EnvOr("VERIF_TOUCH", "all") = "label" THEN {"label"} ELSE {"tags", "extras", "ttc", "label"}
+GMaxAtkDef == atoi(EnvOr("VERIF_GMAXATK", "2"))
 GOpsDef == SliceOps(EnvOr("VERIF_SLICE", "C09"))
 MaxNodesDef == atoi(EnvOr("VERIF_MAXNODES", "5"))
 LevelBound == TLCGet("level") <= atoi(EnvOr("VERIF_DEPTH", "100"))
